@@ -1710,6 +1710,8 @@ impl<R: Read> Vp8Decoder<R> {
 
             let zigzag = ZIGZAG[i] as usize;
             block[zigzag] = abs_value * i32::from(if zigzag > 0 { acq } else { dcq });
+            #[cfg(image_webp_verif)]
+            crate::verif_hooks::note_coefficient(block[zigzag]);
 
             has_coefficients = true;
         }
@@ -3086,4 +3088,33 @@ pub(crate) fn verif_read_tree_with_probs(
         _ => nodes(&DCT_TOKEN_TREE, probs),
     };
     d.read_with_tree_with_first_node(&n, n[0])
+}
+
+/// `calculate_filter_parameters` on a decoder whose header fields are set directly.
+#[cfg(image_webp_verif)]
+#[allow(clippy::too_many_arguments)]
+pub(crate) fn verif_filter_parameters(
+    frame_level: u8,
+    sharpness: u8,
+    segments_enabled: bool,
+    segment_delta: bool,
+    segment_level: i8,
+    ref_delta0: i32,
+    mode_delta0: i32,
+    bpred: bool,
+) -> (u8, u8, u8) {
+    let mut d = Vp8Decoder::new(std::io::empty());
+    d.frame.keyframe = true;
+    d.frame.filter_level = frame_level;
+    d.frame.sharpness_level = sharpness;
+    d.segments_enabled = segments_enabled;
+    d.segment[0].delta_values = segment_delta;
+    d.segment[0].loopfilter_level = segment_level;
+    d.ref_delta[0] = ref_delta0;
+    d.mode_delta[0] = mode_delta0;
+    let mb = MacroBlock {
+        luma_mode: if bpred { LumaMode::B } else { LumaMode::DC },
+        ..Default::default()
+    };
+    d.calculate_filter_parameters(&mb)
 }
